@@ -153,6 +153,52 @@ def targeted_pairs(rng, n):
     return out
 
 
+def systematic_pairs():
+    """small exhaustive families that are always part of a run (not sampled):
+    (1) array / open tuple with a SHORTER prefix against a longer open or closed tuple (padding of the positive prefix in list_inhabited);
+    (2) semantically empty types with structure (E) against never, and X | E against X (is_same_type must not depend on how a type is spelled)"""
+    out = []
+    ts = [NUM, STR]
+    lefts = [('tup', list(p), r) for r in ts for p in [()] + [(x,) for x in ts]]
+    rights = [('tup', list(q), r) for r in ts + [None] for q in [(x,) for x in ts] + [(x, y) for x in ts for y in ts]]
+    for a in lefts:
+        for b in rights:
+            if len(a[1]) < len(b[1]):
+                out.append((a, b))
+                # the same, with every shorter list of the left type covered by closed tuples on the right, so that the decision is made
+                # at the padded positions
+                cover = [('tup', a[1] + [a[2]] * k, None) for k in range(len(b[1]) - len(a[1]))]
+                out.append((a, ('or', cover + [b])))
+    empties = [('and', [obj({'a': (STR, False)}), obj({'a': (NUM, False)})]),
+               ('and', [('tup', [STR], None), ('tup', [NUM], None)]),
+               ('and', [('tup', [STR], None), ('tup', [STR, STR], None)]),
+               ('and', [obj({'a': (lit(1), False)}), obj({'a': (lit(2), False), 'b': (STR, True)})])]
+    xs = [STR, obj({'a': (STR, False)}), ('arr', NUM), ('tup', [NUM], None)]
+    for e in empties:
+        out.append((e, ('never',)))
+        out.append((('never',), e))
+        for x in xs:
+            out.append((('or', [x, e]), x))
+            out.append((x, ('or', [x, e])))
+    return out
+
+
+def targeted_pairs2(rng, n):
+    """object with all of a,b,c against a union of a three-key object and a small object: at least two keys differ against the first member"""
+    tys = [STR, NUM, ('or', [STR, NUM])]
+
+    def full(opt_p, tps):
+        return obj({k: (rng.choice(tps), rng.random() < opt_p) for k in ('a', 'b', 'c')})
+
+    def small():
+        ks = rng.sample(['a', 'b', 'c'], rng.choice([1, 1, 2]))
+        return obj({k: (rng.choice([STR, NUM]), rng.random() < 0.5) for k in ks})
+    out = []
+    for _ in range(n):
+        out.append((full(0.5, tys), ('or', [full(0.3, [STR, NUM]), small()])))
+    return out
+
+
 def index_family():
     out = []
     # only string-keyed index signatures: the meaning of number-keyed ones (JS keys are strings) is not fixed by the property
@@ -328,7 +374,8 @@ def main(tier):
     pairs = [(i, j) for i in idx for j in idx]
     if tier == 'quick' and len(pairs) > 3500:
         pairs = rng.sample(pairs, 3500)
-    for a, b in targeted_pairs(rng, 400 if tier == 'quick' else 6000):
+    extra_pairs = targeted_pairs(rng, 400 if tier == 'quick' else 6000) + targeted_pairs2(rng, 500 if tier == 'quick' else 4000) + systematic_pairs()
+    for a, b in extra_pairs:
         pool.append(a)
         pool.append(b)
         pairs.append((len(pool) - 2, len(pool) - 1))
